@@ -212,3 +212,13 @@ Print Assumptions C11_file_server_model_unserved.
 Theorem C11_path_clean_models_agree : forall s, GoPath.clean s = Route.clean s.
 Proof. exact clean_eq. Qed.
 Print Assumptions C11_path_clean_models_agree.
+
+(** The file server's accounting verdict ([dav_spec]) is the exact accounting or
+    the open one ([accounted_open_b]: the model's live properties are "at least
+    these"; every name at most once; a requested name outside the model's set
+    404 or 200); it only widens the exact verdict, which the model meets
+    ([C11_dav_meets_spec] is stated for this verdict). *)
+Theorem C11_dav_verdict_widens_exact : forall pf p r,
+  accounted_b pf p r = true -> accounted_dav_b pf p r = true.
+Proof. exact accounted_dav_of_exact. Qed.
+Print Assumptions C11_dav_verdict_widens_exact.
